@@ -629,7 +629,8 @@ fn run_inner(args: &Args, rep: &mut Report) {
             let sent = oracle::frame(h, &q, &b);
             // the raw upstream answers with arbitrary reserved bits / format codes / error code / query / body (version 1, id echoed)
             let (mut rh, rq, rb) = arbitrary_frame(&mut r, false);
-            rh.notify = if r.below(4) == 0 { r.boundary_u8() } else { 0 };
+            // a reply has the notify flag clear: the TCP clients drop inbound frames whose notify flag is set (server pushes)
+            rh.notify = 0;
             *ush.reply.lock().unwrap() = Reply { fixed: Some((rh, rq, rb)) };
             ws.send(WsMsg::Binary(sent.clone().into())).await.map_err(|e| format!("ws send: {e}"))?;
             if !ush.wait_frames(1) {
@@ -675,6 +676,69 @@ fn run_inner(args: &Args, rep: &mut Report) {
     if let Err(e) = res {
         rep.inconclusive(format!("proxy part: {e}"));
     }
+    // ---- part D: a downstream message that is NOT exactly one frame (a frame followed by more bytes, two frames glued together,
+    // a frame cut short). Whatever the proxy decides to do with it, what reaches the upstream connection is whole frames only:
+    // either nothing, or exactly the one frame the message starts with — never the stray bytes.
+    let mut odd = 0u64;
+    let res: Result<(), String> = rt.block_on(async {
+        for i in 0..args.budget(24, 300) {
+            if Instant::now() > deadline {
+                break;
+            }
+            let mut r = rng.fork(3_000_000 + i);
+            let (mut h, q, b) = arbitrary_frame(&mut r, false);
+            h.notify = 0;
+            let frame = oracle::frame(h, &q[..q.len().min(300)], &b[..b.len().min(2000)]);
+            let kind = r.below(3);
+            let mut msg = frame.clone();
+            match kind {
+                0 => { let k = 1 + r.usize_below(60); msg.extend_from_slice(&r.bytes(k)); }
+                1 => msg.extend_from_slice(&frame),
+                _ => msg.truncate(48 + r.usize_below(frame.len() - 47).min(frame.len() - 49).max(0)),
+            }
+            *ush.reply.lock().unwrap() = Reply::default();
+            let _ = ush.take_frames();
+            ush.junk.lock().unwrap().take();
+            let (mut ws, _) = tokio::time::timeout(T, tokio_tungstenite::connect_async(format!("ws://{proxy_addr}/"))).await.map_err(|_| "connect timeout")?.map_err(|e| e.to_string())?;
+            ws.send(WsMsg::Binary(msg.clone().into())).await.map_err(|e| format!("ws send: {e}"))?;
+            // the proxy either answers, or closes; wait for either
+            let _ = tokio::time::timeout(Duration::from_secs(5), async {
+                while let Some(Ok(m)) = ws.next().await {
+                    if matches!(m, WsMsg::Binary(_) | WsMsg::Close(_)) {
+                        break;
+                    }
+                }
+            })
+            .await;
+            let _ = ws.close(None).await;
+            tokio::time::sleep(Duration::from_millis(20)).await;
+            let frames = ush.take_frames();
+            let junk = ush.junk.lock().unwrap().take();
+            rep.eval();
+            odd += 1;
+            rep.distinct(&(30, kind, len_class(frame.len())));
+            let what = ["frame followed by stray bytes", "two frames in one message", "truncated frame"][kind as usize];
+            if let Some(j) = junk {
+                rep.violation(format!("C01:proxy-forwarded-non-frame-bytes:{}", ["trailing", "glued", "truncated"][kind as usize]), format!("downstream message = {what} ({} bytes, frame {} bytes): upstream received bytes that are not whole frames: {j}", msg.len(), frame.len()), json!({"message": hex(&msg)}));
+                return Ok(());
+            }
+            let ok = match kind {
+                // glued: the two identical frames, one of them, or nothing
+                1 => frames.iter().all(|f| *f == frame) && frames.len() <= 2,
+                2 => frames.is_empty(),
+                _ => frames.is_empty() || (frames.len() == 1 && frames[0] == frame),
+            };
+            if !ok {
+                rep.violation(format!("C01:proxy-forwarded-non-frame-bytes:{}", ["trailing", "glued", "truncated"][kind as usize]), format!("downstream message = {what}: upstream received {} frame(s), first {}", frames.len(), frames.first().map(|f| hex_trunc(f, 64)).unwrap_or_default()), json!({"message": hex(&msg)}));
+                return Ok(());
+            }
+        }
+        Ok(())
+    });
+    if let Err(e) = res {
+        rep.inconclusive(format!("proxy part D: {e}"));
+    }
+    rep.count("proxy_messages_that_are_not_one_frame", odd);
     rep.count("proxy_round_trips", done);
     if rep.get_count("client_frames_identical_to_spec_frame") == 0 || done == 0 {
         rep.inconclusive("a part observed nothing");
